@@ -111,6 +111,9 @@ def run(repo, rep):
     rep.clause("C17-l", "the size guard rejects exactly the lengths that do not fit 24 bits; the empty stream is accepted")
     rule_length_guard_exact(repo, rep, mod)
     rep.clause("C17-m", "buffers are 16-byte aligned in the written file (Prep(16)), so that the payload's own 16-byte alignment of the command words holds in the file")
+    rep.clause("C17-n", "the fields of the configuration word (product flag, MACs per cycle, SHRAM size, core count) have one writer: ArchitectureFeatures.__init__, from the accelerator configuration; no subclass hook or later pass re-assigns them")
+    rep.clause("C17-o", "every CPU subgraph has its Ethos-U call operators rewritten (command stream as the first operand): the driver applies rewrite_npu_call_ops to each CPU subgraph of the graph, not to the root alone")
+    rule_round9(repo, rep)
     rule_file_alignment(repo, rep)
     externs = {}
     it = Interp(repo, mod, externs)
@@ -536,3 +539,49 @@ def rule_file_alignment(repo, rep):
     uses = [c for c in ast.walk(sb) if isinstance(c, ast.Call) and str(norm(c.func)).endswith("write_aligned_bytes")]
     other = [c for c in ast.walk(sb) if isinstance(c, ast.Call) and isinstance(c.func, ast.Attribute) and c.func.attr in ("CreateByteVector", "CreateNumpyVector", "CreateString")]
     rep.check(bool(uses) and not other, "C17-m", "ethosu/vela/tflite_writer.py:TFLiteSerialiser.serialise_buffer", "buffer contents are written through write_aligned_bytes only", f"{[str(norm(c))[:40] for c in other]}")
+
+
+def rule_round9(repo, rep):
+    """(n) who-may-write: `is_ethos_u65_system`, `num_macs_per_cycle`, `shram_size_bytes`, `ncores` feed build_config_word; every store to
+    an attribute of one of these names anywhere in the package is in ArchitectureFeatures.__init__. (o) must-cover: in
+    compiler_driver.compiler_driver the call of rewrite_npu_call_ops sits in a loop over the graph's subgraphs (directly or through a
+    local list built from `nng.subgraphs`) and receives the loop variable."""
+    fields = ("is_ethos_u65_system", "num_macs_per_cycle", "shram_size_bytes", "ncores")
+    n = 0
+    for m in repo.core_modules():
+        for node in ast.walk(m.tree):
+            if isinstance(node, (ast.Assign, ast.AugAssign, ast.AnnAssign)):
+                tgts = node.targets if isinstance(node, ast.Assign) else [node.target]
+                for t in tgts:
+                    for tt in (t.elts if isinstance(t, (ast.Tuple, ast.List)) else [t]):
+                        if isinstance(tt, ast.Attribute) and tt.attr in fields:
+                            fn = m.enclosing_function(node)
+                            q = m.qualname_of(fn) if fn else "<module>"
+                            n += 1
+                            rep.check((m.name, q) == ("architecture_features", "ArchitectureFeatures.__init__"), "C17-n", f"ethosu/vela/{m.name}.py:{q}", f"`{norm(node)[:80]}` is the constructor's store",
+                                      f"`{norm(node)[:80]}`: a second writer of `{tt.attr}`: the configuration word of a command stream compiled through this path declares another product / size than the accelerator "
+                                      "selected (ethos-u55-128 under the built-in default configuration: 0x10001807 for 0x00001807)")
+    if n < 4:
+        raise AnalysisError(f"{n} stores to configuration-word fields found")
+    cd = repo.mod("compiler_driver")
+    f = cd.func("compiler_driver")
+    site = "ethosu/vela/compiler_driver.py:compiler_driver"
+    calls = [c for c in ast.walk(f) if isinstance(c, ast.Call) and (call_name(c) or "").endswith("rewrite_npu_call_ops")]
+    if not calls:
+        raise AnalysisError("compiler_driver: no call of rewrite_npu_call_ops")
+    loc = {}
+    for a in ast.walk(f):
+        if isinstance(a, ast.Assign) and len(a.targets) == 1 and isinstance(a.targets[0], ast.Name):
+            loc.setdefault(a.targets[0].id, []).append(a.value)
+    for c in calls:
+        loops = [l for l in ast.walk(f) if isinstance(l, ast.For) and any(x is c for x in ast.walk(l)) and isinstance(l.target, ast.Name)]
+        ok = False
+        for l in loops:
+            it_ = l.iter
+            src = str(norm(it_))
+            if isinstance(it_, ast.Name) and len(loc.get(it_.id, [])) == 1:
+                src = str(norm(loc[it_.id][0]))
+            if "nng.subgraphs" in src and c.args and isinstance(c.args[0], ast.Name) and c.args[0].id == l.target.id:
+                ok = True
+        rep.check(ok, "C17-o", site, f"`{norm(c)}` runs for every CPU subgraph of `nng.subgraphs`",
+                  f"`{norm(c)}` is not applied to each subgraph: an Ethos-U operator inside a WHILE body keeps its plain inputs, the written model has no command-stream tensor (COP1 payload) for it")
